@@ -33,9 +33,9 @@ def run(ck, F):
     ck.assume('standard containers release what they allocate (RAII); use-after-free through references the client keeps is '
               'outside the property')
     R1 = ck.rule('C19.allocation-paired', 'each raw allocation site belongs to a class whose user-provided destructor reaches the '
-                 'matching release while traversing the links the allocation is stored in', floor=3)
+                 'matching release while traversing the links the allocation is stored in', floor=2)
     R2 = ck.rule('C19.no-other-raw-ownership', 'no other function of the library allocates raw memory (non-placement new, malloc)', floor=2000)
-    R3 = ck.rule('C19.linked', 'a raw allocation is stored into its owner\'s structure in the function that makes it (or its caller) on every path', floor=3)
+    R3 = ck.rule('C19.linked', 'a raw allocation is stored into its owner\'s structure in the function that makes it (or its caller) on every path', floor=2)
     R4 = ck.rule('C19.payload-destroyed', 'the owner destroys the payload it constructed in raw storage before releasing it (judged on the evaluated destructor of every table instantiation; trivially destructible payloads need no call)', floor=15)
     R5 = ck.rule('C19.destruction-order', 'destroying the string pool cannot touch freed arena storage: String has a trivial destructor', floor=1)
 
